@@ -3,7 +3,7 @@
 import json, os, shutil, sys, re
 pid, k, base, caught, note = sys.argv[1:6]
 dk = sys.argv[6] if len(sys.argv) > 6 else k  # destination number (second-round seeds of a property)
-src = f"/tmp/seed_{pid}_out"
+src = f"/tmp/{os.environ.get('SEED_PREFIX', 'seed')}_{pid}_out"
 dst = f"/verif/seeded/{pid}-{dk}"
 os.makedirs(dst, exist_ok=True)
 shutil.copy(f"{src}/patch{k}.diff", f"{dst}/patch.diff")
